@@ -113,13 +113,12 @@ def cases_tables(tier):
                 (4, False, allrc[:3], 3), (5, False, allrc[:1], 3), (5, True, allrc[:1], 3)]
     else:
         plan = [(1, False, allrc, 3), (2, False, allrc, 3), (3, False, allrc, 3),
-                (4, False, allrc, 3), (5, False, allrc[:3], 3), (5, False, allrc[3:], 2),
-                (5, True, allrc[:3], 3)]
+                (4, False, allrc, 3), (5, False, allrc, 3), (5, True, allrc[:3], 3)]
     out = []
     for cols, split, rcs, base in plan:
         n = cols + (1 if split else 0)
         R = base ** n
-        per = max(1, 120000 // R)
+        per = max(1, 240000 // R)
         for nd, ns in rcs:
             ntab = 2 ** (cols * (nd + ns))
             lo = 0
@@ -131,7 +130,49 @@ def cases_tables(tier):
     return out
 
 
+SUB_ROWS = 6000      # rows per calculate_temps call (cache-sized batches)
+
+
 def run_tables(c):
+    """a case is a contiguous block of table indices; it is evaluated in
+    sub-blocks of about SUB_ROWS (table, rise vector) rows"""
+    n = c['cols'] + (1 if c['split'] else 0)
+    per = max(1, SUB_ROWS // int(c.get('rise_base', 3)) ** n)
+    tot = new_result()
+    tot['extra'] = {'A_tables': 0, 'A_rows': 0, 'A_evaluations': 0,
+                    'A_unity_entries_bit_exact': 0, 'A_violating_rows': {}}
+    worst, tol, kinds = 0.0, 0.0, set()
+    lo = c['t_lo']
+    while lo < c['t_hi']:
+        hi = min(c['t_hi'], lo + per)
+        r = _run_tables_block(dict(c, t_lo=lo, t_hi=hi))
+        lo = hi
+        for k in ('states', 'transitions', 'traces'):
+            tot[k] += r[k]
+        tot['nontrivial'] = tot['nontrivial'] or r['nontrivial']
+        for v in r['violations']:
+            if v['kind'] not in kinds:
+                kinds.add(v['kind'])
+                tot['violations'].append(v)
+        for k, v in r['extra'].items():
+            if isinstance(v, dict):
+                d = tot['extra'].setdefault(k, {})
+                for kk, vv in v.items():
+                    d[kk] = d.get(kk, 0) + vv
+            else:
+                tot['extra'][k] = tot['extra'].get(k, 0) + v
+        if r['info']:
+            worst = max(worst, r['info']['worst_ref_err'])
+            tol = max(tol, r['info']['tol'])
+        if r['outcome'] not in ('ok', 'violated'):
+            tot['outcome'] = r['outcome']
+            return tot
+    tot['outcome'] = 'ok' if not tot['violations'] else 'violated'
+    tot['info'] = {'rows': tot['states'], 'terms': n, 'worst_ref_err': worst, 'tol': tol}
+    return tot
+
+
+def _run_tables_block(c):
     from dassh import hotspot
     r = new_result()
     V = r['violations']
@@ -781,11 +822,14 @@ def run_builtin(c):
 
 # ---- malformed / odd tables ------------------------------------------
 TABLE_CLASSES = {
-    # name: expectation  (reject = must be SystemExit; accept = must be read;
+    # name: expectation  (reject = must be SystemExit; accept = must be read
+    #                     correctly; either = SystemExit or read correctly;
     #                     any = only "no exception other than SystemExit")
     'header-name': 'reject', 'few-cols': 'reject', 'bad-expr': 'reject', 'empty-cell': 'reject',
     'word-cell': 'reject', 'unknown-type': 'reject', 'short-row': 'reject',
-    'blank-line': 'reject', 'blank-tail': 'reject', 'empty-file': 'reject',
+    'empty-file': 'reject',
+    # blank lines: a logged error or reading the table without them are both fine
+    'blank-line': 'either', 'blank-tail': 'either',
     'long-row': 'any', 'header-only': 'any',
     'crlf': 'accept', 'name-has-direct': 'accept',
 }
@@ -859,7 +903,7 @@ def run_tablecls(c):
         try:
             subf, expr = hotspot._read_hcf_table(path, COLS_NEEDED[loc])
             oc = 'accepted'
-            if want == 'accept':
+            if want in ('accept', 'either'):
                 exp = np.array([rows[0][1]]), np.array([rows[1][1], rows[2][1]])
                 if not (_nan_eq(subf['direct'], exp[0]) and _nan_eq(subf['statistical'], exp[1])):
                     V.append(violation('parsed-table-mismatch', c, 'odd but valid table misread',
@@ -919,7 +963,8 @@ def cases_sweep(tier):
             for model in ('fuel', 'pin'):
                 for n_asm in (1, 2, 3):
                     out.append({'part': 'sweep', 'rings': rings, 'model': model, 'n_asm': n_asm,
-                                'shape': idx % 5, 'tabset': 'gen' if idx % 3 else 'builtin',
+                                'shape': idx % 5,
+                                'tabset': 'builtin' if idx % 3 == (idx // 3) % 3 else 'gen',
                                 'gap': 'flow' if (n_asm > 1 and idx % 2) else 'none', 'idx': idx})
                     idx += 1
     else:
